@@ -1744,6 +1744,14 @@ func (s *State) modTargets(env *SpecEnv, m string) (out []modTarget, heap bool) 
 	if m == "heap" {
 		return nil, true
 	}
+	if strings.HasPrefix(m, "every ") {
+		// every T.f: field f of every object of type T (a whole heap component)
+		cn, _, err := c.everyComp(env, m)
+		if err != nil {
+			panic(evalErr(err.Error()))
+		}
+		return []modTarget{{cn, ""}}, false
+	}
 	star := strings.HasSuffix(m, "[*]")
 	m = strings.TrimSuffix(m, "[*]")
 	all := strings.HasSuffix(m, ".*")
@@ -1872,6 +1880,15 @@ func (s *State) checkFrame(env *SpecEnv, pos string) {
 			s.oblige("frame:"+n, "global not listed in modifies is unchanged", pos, fmt.Sprintf("(= %s %s)", cur, init))
 			continue
 		}
+		whole := false
+		for _, a := range allowed[n] {
+			if a == "" {
+				whole = true // `modifies every T.f`
+			}
+		}
+		if whole {
+			continue
+		}
 		r := c.fresh("fr")
 		c.declare(r, "Int")
 		path := s.Path.push(fmt.Sprintf("(assert (and (<= 0 %s) (<= %s WM!0)))", r, r))
@@ -1902,4 +1919,34 @@ func (s *State) locCompInitial(l *Loc) bool {
 		return false
 	}
 	return s.HavocEpoch == 0 && s.Heap[cn] == "|"+cn+"@0|"
+}
+
+// everyComp resolves `every T.f` (T a struct type of the contract's package, or pkg.T) to the heap component of that field.
+func (c *Ctx) everyComp(env *SpecEnv, m string) (name, sort string, err error) {
+	m = strings.TrimSpace(strings.TrimPrefix(strings.TrimSpace(m), "every "))
+	j := strings.LastIndex(m, ".")
+	if j < 0 {
+		return "", "", fmt.Errorf("modifies every %s: expected T.field", m)
+	}
+	var ty types.Type
+	func() {
+		defer func() {
+			if r := recover(); r != nil {
+				err = fmt.Errorf("modifies every %s: %v", m, r)
+			}
+		}()
+		ty, _ = env.resolveType(m[:j])
+	}()
+	if err != nil {
+		return "", "", err
+	}
+	if ty == nil || c.structOf(ty) == nil {
+		return "", "", fmt.Errorf("modifies every %s: unknown type %s", m, m[:j])
+	}
+	path := fieldPath(ty, m[j+1:])
+	if len(path) != 1 {
+		return "", "", fmt.Errorf("modifies every %s: %s has no field %s", m, m[:j], m[j+1:])
+	}
+	name, sort, _ = c.fieldComp(ty, path[0])
+	return name, sort, nil
 }
